@@ -420,6 +420,43 @@ fn long_forms(acc: &mut Acc) {
     }
 }
 
+/// Equivalent spellings must stay equivalent whatever was parsed before on the same thread:
+/// each (canonical, variant) pair is judged on a fresh thread right after a priming parse of a
+/// text that differs from them only inside a quoted value (or only in blanks between words).
+fn primed_pairs(acc: &mut Acc) {
+    let values = ["a b", "a  b", "a\tb", "a   b "];
+    let mut jobs: Vec<(String, String, String)> = vec![];
+    for (kw, wrap) in [("-name", ""), ("-fprint", ""), ("-printf", ""), ("-xattr-match k", "")] {
+        let _ = wrap;
+        for v1 in values {
+            for v2 in values {
+                if v1 == v2 {
+                    continue;
+                }
+                jobs.push((format!("{kw} '{v1}'"), format!("{kw} \"{v2}\""), format!("{kw} '{v2}'")));
+                jobs.push((format!("{kw} '{v1}' -print"), format!("{kw} '{v2}' -print"), format!("{kw}   '{v2}'\t-print ")));
+            }
+        }
+    }
+    for (prime, canon, variant) in jobs {
+        acc.transitions += 1;
+        let res = std::thread::scope(|s| {
+            s.spawn(|| {
+                let mut a = Acc::new();
+                let _ = parse_spec(&prime);
+                judge(&canon, &variant, &["after-earlier-parse-of-a-similar-text"], &mut a);
+                let _ = parse_spec(&prime);
+                judge(&variant, &canon, &["after-earlier-parse-of-a-similar-text"], &mut a);
+                a
+            })
+            .join()
+            .unwrap()
+        });
+        let taken = std::mem::take(acc);
+        *acc = taken.merge(res);
+    }
+}
+
 fn blank_inputs(acc: &mut Acc) {
     let blanks = [' ', '\t', '\r', '\n'];
     for len in 0..=4u32 {
@@ -442,6 +479,7 @@ pub fn run(ctx: &Ctx) -> i32 {
     let mut b = Acc::new();
     blank_inputs(&mut b);
     long_forms(&mut b);
+    primed_pairs(&mut b);
     acc = acc.merge(b);
     let mut extra = serde_json::Map::new();
     extra.insert("base_expressions".into(), json!(bs.len()));
@@ -452,7 +490,7 @@ pub fn run(ctx: &Ctx) -> i32 {
             level: "model_checking",
             exhaustive: true,
             rule: "state = (base sentence, set of spelling deviations); deviation-bounded exploration: 0, 1 and 2 simultaneous departures from the canonical spelling at every site with every value, plus all sites of one kind at once; distinct = distinct (options, tree) results".into(),
-            bound: format!("every grammar sentence of <= {n} symbols over 15 symbols (5 primaries, the option words -depth and -threads 3, so options-only and option-led inputs occur, and two name tests whose value contains the other quote character); deviation bound 2; all 341 blank-only inputs of length 0..4; chains of 8..257 operands (around every power of two) with every operand parenthesised / every gap widened / every operator replaced by its synonym / every value quoted"),
+            bound: format!("every grammar sentence of <= {n} symbols over 15 symbols (5 primaries, the option words -depth and -threads 3, so options-only and option-led inputs occur, and two name tests whose value contains the other quote character); deviation bound 2; all 341 blank-only inputs of length 0..4; chains of 8..257 operands (around every power of two) with every operand parenthesised / every gap widened / every operator replaced by its synonym / every value quoted; 96 (canonical, variant) pairs judged on a fresh thread right after parsing a text that differs only inside a quoted value"),
             assumptions: vec![
                 "insignificant spelling = blanks (space, tab, CR, LF) between words and at the ends, -a/-and/juxtaposition, -o/-or, redundant parentheses (spaced or touching their operand), quoting style of string-class arguments".into(),
                 "quoting of numeric arguments is unspecified and never varied".into(),
